@@ -9,7 +9,8 @@ cd $HERE
 rm -rf _build/evidence_backup && cp -r evidence _build/evidence_backup
 for id in "$@"; do
   out=$(./check $id 2>&1); rc=$?
-  echo "[$id rc=$rc] $(echo "$out" | grep -E '^VIOLATION|^KNOWN' | head -2 | tr '\n' ' ') $(echo "$out" | grep '^#' | head -1 | cut -c1-220)"
+  # the VIOLATION line first (a KNOWN-FINDING line may precede it and is long)
+  echo "[$id rc=$rc] $(echo "$out" | grep -E '^VIOLATION' | head -1) $(echo "$out" | grep '^#' | head -1 | cut -c1-220) $(echo "$out" | grep -E '^KNOWN' | head -1 | cut -c1-60)"
 done
 git -C $REPO checkout -- .
 # evidence written while /repo was modified must not be kept
